@@ -735,3 +735,208 @@ pub fn book(out: &mut dyn Write) {
     let empty = chess_lookup::EMPTY_BOOK_MOVES.into_iter().count();
     writeln!(out, "BKS\t{nodes}\t{maxd}\t{empty}").unwrap();
 }
+
+fn emit_with_successors(out: &mut dyn Write, dist: &mut Dist, b: &Board) {
+    let l = sorted_moves(b);
+    dist.note(b, &l);
+    pos_line(out, b);
+    if b.half_move_clock() >= 9999 || b.full_move_clock() >= 9999 {
+        return;
+    }
+    for m in &l {
+        move_line(out, b, *m);
+        if let Some(nb) = b.move_new(*m) {
+            pos_line(out, &nb);
+        }
+    }
+}
+
+/// C03 families: last moves that give direct, discovered, castling-rook, promotion and en-passant
+/// (direct and discovered) checks; mates / stalemates at and beyond the 100-half-move boundary
+pub fn check_family(out: &mut dyn Write, rng: &mut Rng, stride: u64, stride2: u64) {
+    let mut dist = Dist::default();
+    let stride = stride.max(1);
+    let off = rng.below(stride);
+    let stride2 = stride2.max(1);
+    let off2 = rng.below(stride2);
+    let mut idx = 0u64;
+    let mut idx2 = 0u64;
+    let mut try_build = |out: &mut dyn Write, dist: &mut Dist, bd: &chess_movegen::BoardBuilder| {
+        if let Ok(b) = bd.build() {
+            emit_with_successors(out, dist, &b);
+        }
+    };
+    // (1) en passant: enemy king on every square, optionally one of our sliders anywhere (discovered checks)
+    for turn in 0..2usize {
+        let me = if turn == 0 { Color::White } else { Color::Black };
+        let (prank, _crank) = if turn == 0 { (4u8, 5u8) } else { (3, 2) };
+        for f in 0..8u8 {
+            for g in [f.wrapping_sub(1), f + 1] {
+                if g > 7 {
+                    continue;
+                }
+                for ek in 0..64u8 {
+                    for sl in 0..65u8 {
+                        idx += 1;
+                        if sl < 64 && idx % stride != off {
+                            continue;
+                        }
+                        if sl == 64 {
+                            idx2 += 1;
+                            if idx2 % stride2 != off2 {
+                                continue;
+                            }
+                        }
+                        for kind in [Piece::Rook, Piece::Bishop, Piece::Queen] {
+                            let mut bd = Board::builder();
+                            bd.turn(me);
+                            let myk = if turn == 0 { 4 + (ek as usize % 3) } else { 60 - (ek as usize % 3) } as u8;
+                            if bd.place(p(myk), me, Piece::King).is_err() { continue; }
+                            if bd.place(p(ek), !me, Piece::King).is_err() { continue; }
+                            if bd.place(p(prank * 8 + f), !me, Piece::Pawn).is_err() { continue; }
+                            if bd.place(p(prank * 8 + g), me, Piece::Pawn).is_err() { continue; }
+                            if sl < 64 && bd.place(p(sl), me, kind).is_err() { continue; }
+                            bd.enpassant(File::from_u8(f));
+                            try_build(out, &mut dist, &bd);
+                            if sl == 64 {
+                                break;
+                            }
+                        }
+                    }
+                }
+            }
+        }
+    }
+    // (2) promotions: pawn on the 7th, enemy king everywhere, optional capture target on the promotion rank
+    for turn in 0..2usize {
+        let me = if turn == 0 { Color::White } else { Color::Black };
+        let (r7, r8) = if turn == 0 { (6u8, 7u8) } else { (1, 0) };
+        for f in 0..8u8 {
+            for ek in 0..64u8 {
+                for cap in 0..3u8 {
+                    idx2 += 1;
+                    if idx2 % stride2 != off2 {
+                        continue;
+                    }
+                    let mut bd = Board::builder();
+                    bd.turn(me);
+                    let myk = if turn == 0 { 0u8 } else { 63 };
+                    if bd.place(p(myk), me, Piece::King).is_err() { continue; }
+                    if bd.place(p(ek), !me, Piece::King).is_err() { continue; }
+                    if bd.place(p(r7 * 8 + f), me, Piece::Pawn).is_err() { continue; }
+                    if cap == 1 && f > 0 && bd.place(p(r8 * 8 + f - 1), !me, Piece::Knight).is_err() { continue; }
+                    if cap == 2 && f < 7 && bd.place(p(r8 * 8 + f + 1), !me, Piece::Rook).is_err() { continue; }
+                    try_build(out, &mut dist, &bd);
+                }
+            }
+        }
+    }
+    // (3) castling with the enemy king on the rook's arrival file, and sliders behind (FEN, rights needed)
+    for (fen_t, files) in [("{}/8/8/8/8/8/8/R3K2R w KQ - 0 1", "w"), ("r3k2r/8/8/8/8/8/8/{} b kq - 0 1", "b")] {
+        for ek in 0..8usize {
+            for rk in 1..7usize {
+                let _ = files;
+                // enemy king on file ek, rank rk (relative to the far side)
+                let mut rows: Vec<String> = vec!["8".to_string(); 8];
+                let kchar = if fen_t.ends_with("w KQ - 0 1") { 'k' } else { 'K' };
+                let mut row = String::new();
+                if ek > 0 { row.push_str(&ek.to_string()); }
+                row.push(kchar);
+                if ek < 7 { row.push_str(&(7 - ek).to_string()); }
+                rows[rk] = row;
+                let (a, b) = if fen_t.ends_with("w KQ - 0 1") {
+                    (format!("{}/{}/{}/{}/{}/{}/{}/R3K2R w KQ - 0 1", rows[0], rows[1], rows[2], rows[3], rows[4], rows[5], rows[6]), 0)
+                } else {
+                    (format!("r3k2r/{}/{}/{}/{}/{}/{}/{} b kq - 0 1", rows[1], rows[2], rows[3], rows[4], rows[5], rows[6], rows[7]), 1)
+                };
+                let _ = b;
+                if let Ok(bb) = a.parse::<Board>() {
+                    emit_with_successors(out, &mut dist, &bb);
+                }
+            }
+        }
+    }
+    // (4) mates and stalemates delivered at / beyond the 100-half-move boundary
+    let finals = [
+        "6k1/5ppp/8/8/8/8/8/R3K3 w - -", "k7/8/1K6/8/8/8/8/7R w - -", "7k/8/5K2/8/8/8/8/6Q1 w - -", "r3k3/8/8/8/8/8/PPP5/1K6 b - -",
+        "8/8/8/8/8/1k6/8/K6r b - -", "7k/5K2/8/6Q1/8/8/8/8 w - -", "k7/2K5/8/1Q6/8/8/8/8 w - -", "5k2/5P2/5K2/8/8/8/8/8 w - -",
+        "8/8/8/8/8/5k2/5p2/5K2 w - -", "7k/5KQ1/8/8/8/8/8/8 b - -", "k7/2Q5/2K5/8/8/8/8/8 b - -",
+    ];
+    for f in finals {
+        for hc in [0u32, 50, 97, 98, 99, 100, 101, 150] {
+            if let Ok(b) = format!("{f} {hc} 80").parse::<Board>() {
+                emit_with_successors(out, &mut dist, &b);
+            }
+        }
+    }
+    dist.print(out);
+}
+
+
+/// C01 family: every pin geometry. Own king x direction x (distance to the pinned man) x (distance on to the
+/// pinner) x pinned piece type x pinner type, plus one extra enemy man that may give check.
+pub fn pin_family(out: &mut dyn Write, rng: &mut Rng, stride: u64) {
+    let mut dist = Dist::default();
+    let stride = stride.max(1);
+    let off = rng.below(stride);
+    let mut idx = 0u64;
+    let dirs: [(i32, i32); 8] = [(0, 1), (0, -1), (1, 0), (-1, 0), (1, 1), (-1, 1), (1, -1), (-1, -1)];
+    let pinned_kinds = [Piece::Pawn, Piece::Knight, Piece::Bishop, Piece::Rook, Piece::Queen];
+    for turn in 0..2usize {
+        let me = if turn == 0 { Color::White } else { Color::Black };
+        for k in 0..64i32 {
+            for (di, d) in dirs.iter().enumerate() {
+                for a in 1..7i32 {
+                    for b2 in 1..7i32 {
+                        let (kf, kr) = (k % 8, k / 8);
+                        let (pf, pr) = (kf + d.0 * a, kr + d.1 * a);
+                        let (sf, sr) = (pf + d.0 * b2, pr + d.1 * b2);
+                        if !(0..8).contains(&pf) || !(0..8).contains(&pr) || !(0..8).contains(&sf) || !(0..8).contains(&sr) {
+                            continue;
+                        }
+                        let pinner_kinds: &[Piece] = if di < 4 { &[Piece::Rook, Piece::Queen] } else { &[Piece::Bishop, Piece::Queen] };
+                        for &pk in &pinned_kinds {
+                            if pk == Piece::Pawn && (pr == 0 || pr == 7) {
+                                continue;
+                            }
+                            for &sk in pinner_kinds {
+                                idx += 1;
+                                if idx % stride != off {
+                                    continue;
+                                }
+                                let mut bd = Board::builder();
+                                bd.turn(me);
+                                if bd.place(p(k as u8), me, Piece::King).is_err() { continue; }
+                                if bd.place(p((pr * 8 + pf) as u8), me, pk).is_err() { continue; }
+                                if bd.place(p((sr * 8 + sf) as u8), !me, sk).is_err() { continue; }
+                                // enemy king far from ours
+                                let ek = (0..64u8).map(|i| (i * 37 + 11) % 64).find(|&s| {
+                                    let (f, r) = ((s % 8) as i32, (s / 8) as i32);
+                                    (f - kf).abs().max((r - kr).abs()) > 1 && s as i32 != pr * 8 + pf && s as i32 != sr * 8 + sf
+                                        && !((f - kf) * d.1 == (r - kr) * d.0 && (f - kf) * d.0 + (r - kr) * d.1 > 0)
+                                });
+                                let Some(ek) = ek else { continue };
+                                if bd.place(p(ek), !me, Piece::King).is_err() { continue; }
+                                // optionally an extra enemy man (possible second attacker / capture target for the pinned man)
+                                let extra = rng.below(4);
+                                if extra > 0 {
+                                    let s = rng.below(64) as u8;
+                                    let kind = [Piece::Knight, Piece::Pawn, Piece::Rook, Piece::Bishop][rng.below(4) as usize];
+                                    if !(kind == Piece::Pawn && (s < 8 || s >= 56)) {
+                                        let _ = bd.place(p(s), !me, kind);
+                                    }
+                                }
+                                if let Ok(b) = bd.build() {
+                                    let l = sorted_moves(&b);
+                                    dist.note(&b, &l);
+                                    pos_line(out, &b);
+                                }
+                            }
+                        }
+                    }
+                }
+            }
+        }
+    }
+    dist.print(out);
+}
